@@ -309,20 +309,25 @@ func (s *server) ModifyColumnFamilies(ctx context.Context, req *btapb.ModifyColu
 			delete(cfs, mod.Id)
 
 			// Purge all data for this column family
-			// Rows does not specify what happens if rows are deleted during
-			// iteration, so rows left without cells are removed afterwards.
+			// Rows does not specify what happens if rows are replaced or deleted during
+			// iteration (the btree engine skips rows when a replacement splits a full
+			// node), so the changes are applied afterwards.
 			var emptied []keyType
+			var scrubbed []*btpb.Row
 			tbl.rows.Ascend(func(r *btpb.Row) bool {
 				r, changed := scrubRow(r, tbl.cols())
 				if changed {
 					if len(r.Families) == 0 {
 						emptied = append(emptied, r.Key)
 					} else {
-						tbl.rows.ReplaceOrInsert(r)
+						scrubbed = append(scrubbed, r)
 					}
 				}
 				return true
 			})
+			for _, r := range scrubbed {
+				tbl.rows.ReplaceOrInsert(r)
+			}
 			for _, k := range emptied {
 				tbl.rows.Delete(k)
 			}
